@@ -705,9 +705,10 @@ def run_build(cfg=None, ctl=None, monitors=(), driver=None, env=None, timeout=60
             if build.ctl.policy == "serial":
                 ctl_task = asyncio.create_task(build.ctl.loop())
             drv_task = None
+            reporter = ReporterClient(make_recorder(build))
             serve_task = asyncio.create_task(serve(
                 config_from(cfg), director_socket_path=Path(os.path.join(sockdir, "d")),
-                reporter=ReporterClient(make_recorder(build)), db=db, handle_signals=False))
+                reporter=reporter, db=db, handle_signals=False))
             if driver is not None:
                 drv_task = asyncio.create_task(driver(build))
             try:
@@ -739,6 +740,12 @@ def run_build(cfg=None, ctl=None, monitors=(), driver=None, env=None, timeout=60
                             traceback.format_exception(exc))[-4000:])
             finally:
                 build.ctl.release_all()
+                # like the command-line tool (`async with ReporterClient.socket(...)`): the
+                # reporter client is closed by whoever made it, which flushes its last batch
+                try:
+                    await asyncio.wait_for(reporter.close(), 5)
+                except BaseException:  # noqa: BLE001
+                    pass
                 for t in (ctl_task, drv_task):
                     if t is not None:
                         t.cancel()
